@@ -230,6 +230,7 @@ type cfg struct {
 	SrcInit []ev
 	SrcHist []ev
 	DstHist []ev
+	MidHist []ev // double join only: changes of the services in the middle
 	Cycles  int
 	Mode    string
 	Bound   int
@@ -397,6 +398,17 @@ func (in *inst) run() {
 				}
 				fin <- true
 			}()
+			if mid != nil && len(c.MidHist) > 0 {
+				for _, e := range c.MidHist {
+					o := &corev1.Service{ObjectMeta: meta(e.ns, e.name, in.next()), Spec: corev1.ServiceSpec{Selector: hx.ParseLabels(e.sel)}}
+					if e.typ == kcache.EventTypeDelete {
+						delete(midCur, e.ns+"/"+e.name)
+					} else {
+						midCur[e.ns+"/"+e.name] = o
+					}
+					mid.Publish(kcache.NewEvent(e.typ, o))
+				}
+			}
 			<-fin
 			<-fin
 		}
@@ -522,6 +534,15 @@ func (in *inst) outcome() string {
 	return fmt.Sprintf("lists=%v recv=%v ready=%v", in.lists, in.received, in.readyObs)
 }
 
+// moves: destination objects that enter, leave and re-enter the selection (labels for pods; for the
+// ingress->services join, where selection is by name, services that appear and disappear)
+func moves(k kind, C, U, D kcache.EventType) []ev {
+	if k.selSvc && !k.double {
+		return []ev{{C, "ns", "s1", "x=1"}, {D, "ns", "s1", "x=1"}, {C, "ns", "s2", "x=1"}, {C, "ns", "s1", "x=2"}}
+	}
+	return []ev{{C, "ns", "p1", "l=1"}, {U, "ns", "p1", "l=2"}, {C, "ns", "p2", "l=2"}, {U, "ns", "p2", "l=1"}, {D, "ns", "p1", "l=2"}}
+}
+
 func scenario(c cfg) runner.Sc {
 	return runner.Sc{
 		Scenario: explore.Scenario{
@@ -565,9 +586,16 @@ func Property() runner.Property {
 				out = append(out,
 					scenario(cfg{Kind: ki, Name: "appear+change-selector", SrcInit: []ev{{C, "ns", "w1", sel1}}, SrcHist: []ev{{U, "ns", "w1", sel2}}, DstHist: dst, Cycles: 2, Mode: "S2", Bound: d}),
 					scenario(cfg{Kind: ki, Name: "two-identical-sources,one-changes", SrcInit: []ev{{C, "ns", "w1", sel1}, {C, "ns", "w2", sel1}}, SrcHist: []ev{{U, "ns", "w2", sel2}}, DstHist: dst, Cycles: 1, Mode: "S2", Bound: d}),
+					scenario(cfg{Kind: ki, Name: "destinations-move-in-and-out", SrcInit: []ev{{C, "ns", "w1", sel1}}, DstHist: moves(k, C, U, D), Cycles: 1, Mode: "S2", Bound: d}),
 					scenario(cfg{Kind: ki, Name: "second-source+disappear", SrcInit: []ev{{C, "ns", "w1", sel1}}, SrcHist: []ev{{C, "ns", "w2", sel2}, {D, "ns", "w1", sel1}}, DstHist: dst, Cycles: 1, Mode: "S2", Bound: d}),
 				)
 			}
+			// double join: the service in the middle changes its selector / disappears
+			ip := len(kinds) - 1
+			out = append(out,
+				scenario(cfg{Kind: ip, Name: "middle-service-changes-selector", SrcInit: []ev{{C, "ns", "w1", "s1"}}, MidHist: []ev{{U, "ns", "s1", "l=2"}}, DstHist: []ev{{C, "ns", "p1", "l=1"}, {C, "ns", "p3", "l=2"}}, Cycles: 1, Mode: "S2", Bound: d}),
+				scenario(cfg{Kind: ip, Name: "middle-service-disappears", SrcInit: []ev{{C, "ns", "w1", "s1"}}, MidHist: []ev{{D, "ns", "s1", "l=1"}}, DstHist: []ev{{C, "ns", "p1", "l=1"}}, Cycles: 1, Mode: "S2", Bound: d}),
+			)
 			return out
 		},
 	}
